@@ -316,15 +316,23 @@ func runC19(c *Check, w *World) {
 		if f == nil {
 			continue
 		}
-		wi := findWindow(c, w, tb, "R19.1", f, isStepValidator(w))
-		if wi != nil && wi.bound != nil {
-			sz := wi.bound
-			if size, _, isOff := offsetForm(tb, wi); isOff {
-				sz = size // i runs 0..2s: 2s+1 iterations like the symmetric form
+		// the window analysis of C03/C04 is run into a scratch sink: only the gate matters here
+		sink := NewCheck(c.Property, c.Tier)
+		sink.SetConfig(w.Cfg.Name)
+		wr := analyseWindow(sink, w, tb, iv, "R19.1", f, isStepValidator(w), "", name == "ValidateHOTP")
+		if wr == nil || wr.sizeItv.Hi == nil && wr.sizeItv.Lo == nil {
+			why := "the window loop of " + name + " was not found"
+			for _, o := range sink.Obls {
+				if o.st != Discharged {
+					why = o.Reason
+					break
+				}
 			}
-			it := iv.At(stripConv(sz), wi.header)
-			c.Decide(it.Hi != nil && it.Hi.Cmp(big.NewInt(10)) <= 0, "R19.1", FuncName(f), "window-bounded", "the client-chosen window is at most 10 at the loop", "the client-chosen window can be "+it.String()+" at the loop: one request occupies a worker for an unbounded time", w.InstrPos(wi.cond))
+			c.Unk("R19.1", FuncName(f), "window-bounded", "the client-chosen window cannot be bounded: "+why, w.Pos(f.Pos()))
+			continue
 		}
+		it := wr.sizeItv
+		c.Decide(it.Hi != nil && it.Hi.Cmp(big.NewInt(10)) <= 0, "R19.1", FuncName(f), "window-bounded", "the client-chosen window is at most 10 at the loop", "the client-chosen window can be "+it.String()+" at the loop: one request occupies a worker for an unbounded time", wr.firstPos)
 	}
 	// ---- R19.5 request goroutines share no writable state --------------------------------------------------------
 	// every request runs on its own goroutine: a package-level variable (map, default parameter set, cache) written
@@ -336,6 +344,8 @@ func runC19(c *Check, w *World) {
 	sortFuncs(reqFns)
 	ruleNoPkgState(c, w, tb, ef, "R19.5", reqFns)
 	c.Count("request_path_functions", len(reqFns))
+	// ---- R19.6 an answer does not depend on earlier requests: per-request decode targets, no pooled request objects
+	ruleRESTStateless(c, w, tb, ef, "R19.6", true)
 	c.Floor("R19.1", 5) // two windows, the stack walk, and loops (whose number a refactoring may legitimately reduce)
 	c.Require("R19.1", "window-bounded", 2)
 	c.Require("R19.1", "stack-walk-bounded", 1)
@@ -358,7 +368,7 @@ func init() {
 		level: "other",
 		explain: "R19.1 every loop of every function reachable from the router and its handlers (service layer and library) is a counted loop with a bound ≤ 2^24 derived from constants, dominating gates or container lengths — request fields reach the exported library functions unconstrained — or a range / constant-growth loop; in particular the client-chosen HOTP/TOTP windows are ≤ 10 at their loops; " +
 			"R19.2 the server's Handler is Chain(..., Recovery, ...)(routers), Chain applies every middleware of its list, and Recovery has the shape defer{recover() → 5xx status}; next(ctx); R19.3 ReadTimeout, WriteTimeout and MaxRequestBodySize are positive constants; " +
-			"R19.5 no function on the request path (handlers, service layer, library) writes a package-level variable: request goroutines share no writable state (a concurrent map write is a fatal error that Recovery cannot catch); R19.4 every error test in every handler leads to writeError with a constant 4xx/5xx status followed by return, writeError sets the status it is given, success paths set 200, unknown paths 404. " +
+			"R19.6 the service layer keeps no request state (requests decoded into per-request locals, no pooled request objects, no package variable written, no locks), so a well-formed request is answered the same after any history; R19.5 no function on the request path (handlers, service layer, library) writes a package-level variable: request goroutines share no writable state (a concurrent map write is a fatal error that Recovery cannot catch); R19.4 every error test in every handler leads to writeError with a constant 4xx/5xx status followed by return, writeError sets the status it is given, success paths set 200, unknown paths 404. " +
 			"The loop inside the panic-recovery stack walk (runtime.Frames.Next over a fixed 32-entry buffer) is whitelisted by the callee it polls. Not decided: actual latency, cost classes beyond loop bounds (e.g. quadratic string building), fasthttp internals, OS limits.",
 		trusted:  []string{"fasthttp enforces ReadTimeout/WriteTimeout/MaxRequestBodySize", "runtime.Frames.Next terminates over a fixed-size pc buffer"},
 		quick:    []Config{CfgNative},
